@@ -965,3 +965,75 @@ def alpha(term):
     out = A().visit(copy.deepcopy(term))
     ast.fix_missing_locations(out)
     return out
+
+
+def self_effects_of(repo, cls, depth=4):
+    """callable(method name) -> set of attributes of self the method may change (through the class
+    hierarchy, following calls to other methods of self), or None when that cannot be told"""
+    cache = {}
+
+    def effects(meth, d=depth):
+        if meth in cache:
+            return cache[meth]
+        r = repo.find_method(cls, meth)
+        if r is None or d <= 0:
+            return None
+        cache[meth] = set()          # recursion guard
+        fn = r[1]
+        ps = [a.arg for a in fn.args.posonlyargs + fn.args.args]
+        if not ps:
+            cache[meth] = set()
+            return cache[meth]
+        me = ps[0]
+        out = set()
+        for n in ast.walk(fn):
+            if isinstance(n, (ast.Attribute, ast.Subscript)) and isinstance(n.ctx, (ast.Store, ast.Del)):
+                p = access_path(n) or ""
+                b = access_path(n.value) or ""
+                for q in (p, b):
+                    if q.startswith(me + "."):
+                        out.add(q[len(me) + 1:].split(".")[0].split("[")[0])
+                if root_name(n) == me and not (p.startswith(me + ".") or b.startswith(me + ".")):
+                    cache[meth] = None
+                    return None
+            elif isinstance(n, ast.Call) and isinstance(n.func, ast.Attribute):
+                recv = n.func.value
+                rp = access_path(recv) or ""
+                if isinstance(recv, ast.Name) and recv.id == me:
+                    sub = effects(n.func.attr, d - 1)
+                    if sub is None:
+                        cache[meth] = None
+                        return None
+                    out |= sub
+                elif rp.startswith(me + ".") and n.func.attr not in PURE_METHODS:
+                    out.add(rp[len(me) + 1:].split(".")[0].split("[")[0])
+                # self handed to a foreign callee
+            if isinstance(n, ast.Call):
+                for a in list(n.args) + [k.value for k in n.keywords]:
+                    if isinstance(a, ast.Name) and a.id == me:
+                        cache[meth] = None
+                        return None
+        cache[meth] = out
+        return out
+    return effects
+
+
+def index_maps(term):
+    """[E(v) for v in X][k] -> E(X[k]);  [E(v) for v in X[:b]][k] -> E(X[k])  (elementwise-mapped copies)"""
+    class M(ast.NodeTransformer):
+        def visit_Subscript(self, n):
+            n = self.generic_visit(n)
+            c = n.value
+            if isinstance(c, ast.ListComp) and not isinstance(n.slice, ast.Slice) and len(c.generators) == 1 and not c.generators[0].ifs \
+                    and isinstance(c.generators[0].target, ast.Name):
+                src = c.generators[0].iter
+                if isinstance(src, ast.Subscript) and isinstance(src.slice, ast.Slice) and src.slice.lower is None and src.slice.step is None:
+                    src = src.value
+                if access_path(src) is not None:
+                    el = ast.Subscript(value=copy.deepcopy(src), slice=copy.deepcopy(n.slice), ctx=ast.Load())
+                    out = _Subst({c.generators[0].target.id: el}, set()).visit(copy.deepcopy(c.elt))
+                    ast.copy_location(out, n)
+                    ast.fix_missing_locations(out)
+                    return out
+            return n
+    return M().visit(copy.deepcopy(term))
